@@ -26,10 +26,14 @@ def _finish(name, lines, descr, io, mo, diffs, dt, rule, nontrivial, dist=None, 
     unm = collections.Counter(m.split(' ')[1] if ' ' in m else m for m in mo if m.startswith('U '))
     distinct = len({lines[i] for i in nontrivial})
     step = max(1, len(lines) // 5)
-    return {'name': name, 'cases': len(lines), 'distinct_nontrivial': distinct, 'rule': rule,
-            'samples': [descr[i] for i in range(0, len(lines), step)][:5],
-            'disagreements': dis, 'n_disagreements': len(diffs), 'unmodelled': sum(unm.values()),
-            'unmodelled_reasons': dict(unm.most_common(12)), 'dist': dist or {}, 'wall_s': dt}
+    rec = {'name': name, 'cases': len(lines), 'distinct_nontrivial': distinct, 'rule': rule,
+           'samples': [descr[i] for i in range(0, len(lines), step)][:5],
+           'disagreements': dis, 'n_disagreements': len(diffs), 'unmodelled': sum(unm.values()),
+           'unmodelled_reasons': dict(unm.most_common(12)), 'dist': dist or {}, 'wall_s': dt}
+    if corr.DEN_LAST:
+        # how often the compositional semantics (Sq/Denote.lean) gave the machine's report on this slice's EVAL lines
+        rec['denote'] = dict(corr.DEN_LAST)
+    return rec
 
 
 def corpus_lines(name):
